@@ -35,6 +35,15 @@ def gen_dsmhist(tier, seed):
             psets.append(bad)
             stats["bad_psets"] = stats.get("bad_psets", 0) + 1
         kind = r.choice(["idsm", "sdsm"])
+        lowsurv = r.random() < 0.1
+        if lowsurv:
+            # a stock-driven model whose second parameter set lets (some) cohorts vanish within their first interval
+            cls, kind = "FixedLifetime", "sdsm"
+            short = ({"kind": "scalar", "v": "1/4"} if m == 1 or r.random() < 0.5 else
+                     {"kind": "array", "dims": [letters[1]], "vals": ["1/4"] + [fnum(Fraction(5, 2))] * (shape[1] - 1)})
+            psets = [{"mean": prm_spec(r, "mean", letters, shape, span)}, {"mean": short}]
+            npsets0 = 2
+            stats["low_survival"] = stats.get("low_survival", 0) + 1
         dk = "nonneg" if kind == "idsm" else "any"
         ops = []
         for _ in range(r.randint(3, maxops)):
@@ -57,11 +66,15 @@ def gen_dsmhist(tier, seed):
             if r.random() < 0.7:
                 seq += [["setprms", r.randrange(npsets0)], ["compute"]]
             ops[at:at] = seq
+        if lowsurv:
+            # usable and vanishing lifetimes in turn on one object
+            ops = [["compute"], ["setprms", 1], ["compute"], ["setdriver", driver(r, n, m, dk)], ["compute"],
+                   ["setprms", 0], ["compute"], ["setprms", 1], ["compute"]]
         ops.append(["compute"])
         via = r.random() < 0.3
         specs.append({"id": cid, "items": items, "extra": extra, "cls": cls,
                       "inflow_at": r.choice(["start", "middle", "end"]), "n_pts": r.choice([1, 1, 2, 3, 5]),
-                      "psets": psets, "kind": kind, "solver": r.choice(["manual", "lapack"]),
+                      "psets": psets, "kind": kind, "solver": "manual" if lowsurv else r.choice(["manual", "lapack"]),
                       "via_definition": via, "k0": 0, "driver0": driver(r, n, m, dk), "ops": ops})
         stats["cases"] += 1
         stats["kinds"][kind] = stats["kinds"].get(kind, 0) + 1
